@@ -35,16 +35,33 @@ Lemma lookup_refresh1_none k v pl : lookup k pl = None -> refresh1 k v pl = pl.
 Proof. intros H. unfold refresh1. rewrite H. reflexivity. Qed.
 
 (* ------------------------------------------------------------------ prepare / describe *)
+Lemma last_snoc {A} (l : list A) x d : last (l ++ [x]) d = x.
+Proof. induction l as [|a r IH]; [reflexivity|]. cbn [app]. destruct (r ++ [x]) eqn:E; [destruct r; discriminate E | exact IH]. Qed.
+Lemma dget_dput_same k v d : dget (dput k v d) k = v.
+Proof.
+  unfold dget. induction d as [|[k' v'] r IH]; cbn [dput find fst snd].
+  - rewrite Nat.eqb_refl. reflexivity.
+  - destruct (k' =? k) eqn:E; cbn [find fst snd]; [rewrite Nat.eqb_refl; reflexivity | rewrite E; exact IH].
+Qed.
+Lemma cur_params_upd p f : cur_params (upd_params p f) = f (cur_params p).
+Proof. unfold cur_params at 1, upd_params, set_pdicts; cbn [p_pdicts]. apply last_snoc. Qed.
+(* whatever route gave the processor its filter, the dict that is sent holds the filter the processor reports *)
+Lemma filter_sync p : option_map Z.to_nat (dget (cur_params (sync p)) 0) = p_filter p.
+Proof.
+  unfold sync. rewrite cur_params_upd, dget_dput_same. destruct (p_filter p); cbn; [rewrite Nat2Z.id|]; reflexivity.
+Qed.
+
 Theorem prepare_describes pf p c pl : prepare pf p c = Ok pl -> describe pl = view_of p c.
 Proof.
-  unfold prepare. destruct (p_filter p) eqn:F; [|discriminate].
+  unfold prepare. pose proof (filter_sync p) as FS. set (d := cur_params (sync p)) in *.
+  destruct (p_filter p) eqn:F; [|discriminate].
   destruct (check_circuit pf p); cbn [bind]; [|discriminate].
   destruct (p_in p) as [st|] eqn:I.
   - destruct (check_input pf p (remove_her (p_her p) 0 st)); cbn [bind]; [|discriminate].
     intros H; inversion H; subst; clear H. unfold view_of. rewrite F, I.
-    destruct (p_ps p), (p_her p), (p_noise p); reflexivity.
+    destruct (p_ps p), (p_her p), (p_noise p); unfold describe; cbn [lookup key_eqb key_code Nat.eqb app]; rewrite FS; reflexivity.
   - cbn [bind]. intros H; inversion H; subst; clear H. unfold view_of. rewrite F, I.
-    destruct (p_ps p), (p_her p), (p_noise p); reflexivity.
+    destruct (p_ps p), (p_her p), (p_noise p); unfold describe; cbn [lookup key_eqb key_code Nat.eqb app]; rewrite FS; reflexivity.
 Qed.
 
 (* platform constraints, read off what the request describes *)
@@ -561,7 +578,7 @@ Theorem from_local_old_code_refuted :
   exists lp, wf_her lp /\ msize lp <> 0 /\ (forall st, p_in lp = Some st -> length st = p_size lp) /\
     from_local_old_code lp = Err XAssert 1.
 Proof.
-  exists (mkproc (mkcirc 0 4 [0; 1; 2; 3] []) [] [] [(3, 1)] (Some [1; 0; 0; 1]) None None (Some 1)).
+  exists (mkproc (mkcirc 0 4 [0; 1; 2; 3] []) [] [] [(3, 1)] (Some [1; 0; 0; 1]) None None (Some 1) [[(0, Some 1%Z)]]).
   split; [split; [repeat constructor; intros []; contradiction | repeat constructor]|].
   split; [cbn; discriminate|]. split; [intros st H; inversion H; reflexivity|]. vm_compute. reflexivity.
 Qed.
@@ -813,4 +830,55 @@ Proof.
   cbn [apply_op]. destruct (existsb (Nat.eqb n) (p_pnames p)); [|intros H; discriminate H].
   intros H; inversion H; subst; clear H. intros C. rewrite (job_circuit_is_current _ _ _ _ _ _ _ C).
   eexists. split; [reflexivity|]. cbn. repeat split.
+Qed.
+
+(* ------------------------------------------------------------------ the filter, whatever route set it *)
+Theorem request_filter_is_processor_filter pf p c pl : prepare pf p c = Ok pl ->
+  exists d, lookup KParams pl = Some (VParams d) /\ dget d 0 = zf (p_filter p) /\
+    v_filter (describe pl) = p_filter p.
+Proof.
+  intros H. pose proof (prepare_describes _ _ _ _ H) as D. revert H. unfold prepare.
+  destruct (p_filter p) eqn:F; [|intros H; discriminate H].
+  destruct (check_circuit pf p); cbn [bind]; [|intros H; discriminate H].
+  assert (G : dget (cur_params (sync p)) 0 = zf (p_filter p)).
+  { unfold sync. rewrite cur_params_upd, dget_dput_same. reflexivity. }
+  destruct (p_in p) as [st|].
+  - destruct (check_input pf p _); cbn [bind]; [|intros H; discriminate H].
+    intros H; inversion H; subst; clear H. eexists. split; [reflexivity|]. split; [rewrite <- F; exact G|].
+    rewrite D. exact F.
+  - cbn [bind]. intros H; inversion H; subst; clear H. eexists. split; [reflexivity|]. split; [rewrite <- F; exact G|].
+    rewrite D. exact F.
+Qed.
+
+Lemma nth_snoc_last {A} (l : list A) x d : nth (length l - 1) (removelast l ++ [x]) d = x.
+Proof.
+  destruct l as [|a r]; [reflexivity|].
+  assert (L : length (removelast (a :: r)) = length (a :: r) - 1).
+  { assert (N : a :: r <> []) by discriminate. pose proof (app_removelast_last a N) as E.
+    apply (f_equal (@length A)) in E. rewrite app_length in E. cbn [length] in E |- *. lia. }
+  rewrite <- L. rewrite app_nth2 by lia. rewrite Nat.sub_diag. reflexivity.
+Qed.
+
+(* a job executed as created: the request carries the filter the processor reported when the job was created,
+   whether it got there through the setter, a LogicalState default, the experiment object, an assigned experiment,
+   or after clear_parameters *)
+Theorem fresh_job_filter pf p shots its gen m j it args kw r :
+  create_job pf p shots its gen m = Ok j ->
+  exec_payload j (nth (j_pgen j) (p_pdicts (job_sync pf p its m)) []) it args kw = Ok r ->
+  v_filter (describe r) = p_filter p.
+Proof.
+  intros C X. pose proof (create_job_ok _ _ _ _ _ _ _ C) as ((prim & _ & _ & _ & P) & _).
+  revert C. unfold create_job, job_sync in *.
+  destruct (input_available p its); cbn [negb]; [|intros H; discriminate H].
+  destruct (select pf m) as [[prim' conv]|]; [|intros H; discriminate H].
+  destruct (prepare pf p (meth_code prim')) as [pl|] eqn:Q; cbn [bind]; [|intros H; discriminate H].
+  assert (F : p_filter p <> None).
+  { unfold prepare in Q. destruct (p_filter p); [discriminate | discriminate Q]. }
+  destruct (p_filter p) as [n|] eqn:Fn; [|congruence].
+  intros H; inversion H; subst; clear H. cbn [j_pgen] in X.
+  assert (E : nth (length (p_pdicts p) - 1) (p_pdicts (sync p)) [] = cur_params (sync p)).
+  { unfold sync at 1, upd_params, set_pdicts; cbn [p_pdicts]. rewrite nth_snoc_last.
+    unfold sync. rewrite cur_params_upd. reflexivity. }
+  rewrite E in X. pose proof (exec_filter_is_current _ _ _ _ _ _ P X) as K.
+  unfold describe; cbn [v_filter]. rewrite K. rewrite filter_sync. exact Fn.
 Qed.
